@@ -38,7 +38,40 @@ pub fn make_universe(root: &std::path::Path) -> std::io::Result<()> {
         std::fs::create_dir_all(&d)?;
         rec(&d, UNIVERSE_DEPTH - 1)?;
     }
+    // directories of the filler targets of `embed_in_fillers`
+    for i in 0..MAX_FILLERS {
+        let d = root.join(filler_path(i));
+        std::fs::create_dir_all(&d)?;
+        std::fs::write(d.join("f"), b"x\n")?;
+    }
     Ok(())
+}
+
+pub const MAX_FILLERS: usize = 200;
+pub fn filler_path(i: usize) -> String {
+    format!("zz-fill/f{:03}", i)
+}
+
+/// The same configuration inside a large one: `n_fill` independent filler targets are declared
+/// around it, `before` of them in front (configurations beyond 64 / 128 targets, with the
+/// interesting part anywhere in the declaration order).
+pub fn embed_in_fillers(cfg: &ConfigSpec, n_fill: usize, before: usize) -> ConfigSpec {
+    let n_fill = n_fill.min(MAX_FILLERS);
+    let before = before.min(n_fill);
+    let mut targets = vec![];
+    for i in 0..before {
+        targets.push(crate::model::TargetSpec::new(&filler_path(i)));
+    }
+    targets.extend(cfg.targets.iter().cloned());
+    for i in before..n_fill {
+        targets.push(crate::model::TargetSpec::new(&filler_path(i)));
+    }
+    ConfigSpec { targets, ..cfg.clone() }
+}
+
+/// Filler counts around the sizes 64 and 128 (the small configuration adds 1-8 targets).
+pub fn filler_count() -> impl Strategy<Value = (usize, u16)> {
+    (prop_oneof![3 => 56usize..=70, 2 => 120usize..=134, 1 => 20usize..=199], any::<u16>())
 }
 
 #[derive(Debug, Clone)]
